@@ -227,7 +227,8 @@ def run (lines : Array String) : IO Report := do
         let key := r.keys.headD []
         let scfg : Spec.Cfg := { checkVHash := rs.cfg.store.checkVHash }
         if (r.cmd == Proto.ascii "set" || r.cmd == Proto.ascii "add" || r.cmd == Proto.ascii "replace" || r.cmd == Proto.ascii "cas")
-            && Proto.validKeyString key && r.exptime ≥ 0 then
+            && Proto.validKeyString key && r.exptime ≥ 0
+            && ((r.flag % 4294967296).toNat / 65536) % 2 == 0 then    -- the server-reserved flag bit is outside the client's alphabet: such a set is refused
           sp := (Spec.step scfg sp (.set key r.body (r.flag % 4294967296).toNat r.exptime 0)).1
         else if r.cmd == Proto.ascii "delete" && Proto.validKeyString key then
           sp := (Spec.step scfg sp (.delete key)).1
